@@ -1533,3 +1533,8 @@ NOT_PROVED = NOT_PROVED + ["for fractional Bernoulli responses 0 < y < 1 (outsid
 # into lean/Compute/Generated/SrcC06.lean and proved equal to the hand model in Props/SrcTieC06.lean)
 from . import srctie
 srctie.wire(globals(), 'C06')
+
+# --- deep theorems (Rounding7, wired by the lead)
+PROOF_MODULES = PROOF_MODULES + [m for m in ['Compute.Lemmas.Rounding7', 'Compute.Props.Rounding7'] if m not in PROOF_MODULES]
+REQUIRED_THEOREMS = REQUIRED_THEOREMS + ['Cv.Rounding7.scoringStep_system', 'Cv.Rounding7.scoring_fixed_point', 'Cv.Rounding7.loopBody_scoringStep', 'Cv.Rounding7.computeDdbeta_fl', 'Cv.Rounding7.computeDbeta_fl', 'Cv.Rounding7.dbetaCell_pert', 'Cv.Rounding7.solve_backward_W', 'Cv.Rounding7.step_small', 'Cv.Rounding7.invLinkF_error']
+NOT_PROVED = [x for x in NOT_PROVED if not str(x).startswith('floating-point rounding of the scoring iteration')] + ["floating-point rounding of the scoring loop: one IRLS step IS analysed in the standard model (Props/Rounding7 scoringStep_system): the computed Newton step solves (X^T W X + alpha I + E) d = -X^T r + alpha P beta + e with |E| <= gamma_(n+2) |X|^T|W||X| + u(|H_aa|+alpha) on the diagonal + gamma_(3p+1) W_solve and |e| <= gamma_(n+1) |X|^T|r| + gamma_2(|g|+alpha|beta|), W, r the computed working weights/residuals (3 resp. 4 roundings), the link values within u_f (ExpLnStd) of the exact ones at the computed linear predictor; and 'converged in floats => score small' (scoring_fixed_point): if the step leaves beta unchanged then |d_b| <= gamma_1|beta_b| and the score built from the computed residuals is bounded by gamma_1 (|X^T W X + alpha I| + |E|)|beta| + |e|; the distance of that score to the score at the exact link values, and convergence of the iteration itself, are oracle only"]
